@@ -195,6 +195,17 @@ def run(ctx: Ctx) -> Result:
         first = rng.choice([P(s64), P(s64 + bytes([f2]))])
         script = first + P(pk) + op('CHECK_SIG') + b'\xff' + op('POP0') + P(s64 + bytes([fl])) + P(pk) + op(rng.choice(['CHECK_SIG', 'CHECK_SIG'])) + b'\xff'
         cases.append(('the same signature bytes first rejected (bare / other flag), then checked with their own flag byte', cfg, cache, script, 'T'))
+    # sigfields held as bytearray (as the embedder may): the message is built from them without touching them - building it twice in one
+    # run gives the same message twice
+    for _ in range(ctx.n(20, 150)):
+        cache = {f'sigfield{i}': (bytearray(V.rbytes(rng, rng.choice([1, 5]))) if rng.random() < .6 else V.rbytes(rng, rng.choice([1, 5]))) for i in range(1, 9) if rng.random() < .6}
+        cache['sigfield1'] = bytearray(V.rbytes(rng, 3)); cache.setdefault('sigfield2', b'bb')
+        fl = rng.choice([0, 0, 1 << rng.randrange(1, 8)])
+        ki = rng.randrange(len(keys.sks)); sk, pk, seed = keys.sks[ki], keys.pks[ki], keys.seeds[ki]
+        msg = ref_msg({k: bytes(v) for k, v in cache.items()}, fl)
+        cases.append(('bytearray sigfields: GET_MESSAGE twice', cfg, cache, op('GET_MESSAGE') + bytes([fl]) + op('POP0') + op('GET_MESSAGE') + bytes([fl]), ('stack', (msg.hex() or 'e'))))
+        cases.append(('bytearray sigfields: SIGN then CHECK_SIG', cfg, cache, P(seed) + op('SIGN') + bytes([fl]) + P(pk) + op('CHECK_SIG') + b'\xff', 'T'))
+        cases.append(('bytearray sigfields: GET_MESSAGE, then CHECK_SIG of an external signature', cfg, cache, op('GET_MESSAGE') + bytes([fl]) + op('POP0') + P(sk.sign(msg).signature + (bytes([fl]) if fl else b'')) + P(pk) + op('CHECK_SIG') + b'\xff', 'T'))
     # wrong lengths: error, never true
     sk, pk = keys.sks[0], keys.pks[0]
     sig = sk.sign(b'').signature
